@@ -133,3 +133,67 @@ Section Fresh.
     congruence.
   Qed.
 End Fresh.
+
+(* ---------------------------------------------------------------- loaders *)
+Section Loaders.
+  Context {key : Type}.
+  Variable enc : key -> bytes -> bytes -> bytes * bytes.
+  Variable dec : key -> bytes -> bytes -> option bytes.
+  Variable issued : key -> bytes -> bytes -> Prop.
+  Variable zdec : bytes -> option bytes.
+  Variable hash : bytes -> fid.
+  Hypothesis IA : ideal_aead enc dec issued.
+
+  Lemma load_all_spec (read : fid -> res bytes) ids xs :
+    load_all read ids = Ok xs -> map fst xs = ids /\ forall i x, In (i, x) xs -> read i = Ok x.
+  Proof.
+    revert xs. induction ids as [|i r IH]; cbn [load_all]; intros xs H.
+    - injection H as <-. split; [reflexivity|intros ? ? []].
+    - destruct (read i) as [x|e] eqn:R; [|discriminate].
+      destruct (load_all read r) as [ys|e] eqn:L; [|discriminate].
+      injection H as <-. destruct (IH _ eq_refl) as [M F]. split; [cbn; congruence|].
+      intros j y [E|Hin]; [injection E as <- <-; assumption|apply F; assumption].
+  Qed.
+
+  Lemma load_all_fails (read : fid -> res bytes) ids i :
+    In i ids -> is_err (read i) -> is_err (load_all read ids).
+  Proof.
+    induction ids as [|j r IH]; [intros []|]. intros [->|Hin] E; cbn [load_all].
+    - destruct E as [e ->]. eexists; reflexivity.
+    - destruct (read j); [|eexists; reflexivity].
+      destruct (IH Hin E) as [e ->]. eexists; reflexivity.
+  Qed.
+
+  Lemma lookup_in_listing (s : store) i d : lookup s i = Some d -> In i (map fst (listing s)).
+  Proof.
+    induction s as [|[j b] r IH]; cbn [lookup listing map fst]; [discriminate|].
+    destruct (j =? i) eqn:E; [apply N.eqb_eq in E; left; assumption|right; apply IH; assumption].
+  Qed.
+
+  (* the complete loader: if ANY listed file of the type does not read (tampered in any way the
+     by-id read detects — including truncation to zero bytes), the whole load fails *)
+  Lemma complete_loader_detects v k (s : store) i d :
+    lookup s i = Some d ->
+    is_err (read_repo_file key dec zdec hash v false k s i) ->
+    is_err (load_type key dec zdec hash true v k s).
+  Proof.
+    intros L E. unfold load_type. eapply load_all_fails; [|eassumption].
+    eapply lookup_in_listing. eassumption.
+  Qed.
+
+  (* and what it returns on success is, file by file, what the by-id read returns *)
+  Lemma complete_loader_sound v k (s : store) xs :
+    load_type key dec zdec hash true v k s = Ok xs ->
+    map fst xs = map fst (listing s)
+    /\ forall i x, In (i, x) xs -> read_repo_file key dec zdec hash v false k s i = Ok x.
+  Proof. unfold load_type. apply load_all_spec. Qed.
+
+  (* a stored file truncated to zero bytes never reads: Key::decrypt_data refuses it *)
+  Lemma empty_file_never_reads v k (s : store) i :
+    lookup s i = Some [] -> is_err (read_repo_file key dec zdec hash v false k s i).
+  Proof.
+    intro L. unfold read_repo_file, read_encrypted_full_checked, Model.read_encrypted_full. rewrite L.
+    assert (E : decrypt_file key dec zdec k [] = Err ETooShort) by reflexivity.
+    destruct (v && negb false); [destruct (hash [] =? i)|]; rewrite ?E; eexists; reflexivity.
+  Qed.
+End Loaders.
